@@ -161,6 +161,7 @@ func ExecChain(plan *ChainPlan, cfg *ChainCfg, rc *RunCtx) *Violation {
 		st := &plan.Steps[i]
 		r.op = st.Op
 		xsimrt.SetEpoch(uint64(i + 1))
+		time.Sleep(time.Millisecond) // the clock never stands still between two operations
 		rc.St.Steps++
 		rc.St.Ops[st.Op]++
 		if v := r.doStep(st); v != nil {
@@ -265,6 +266,7 @@ func (r *chainRun) doStep(st *CStep) *Violation {
 		}
 		r.u.AddTx(tx.Txid)
 		r.txs[string(tx.Txid)] = CloneTx(tx)
+		r.logf("built %s", descTx(tx))
 		targets := []int{ni}
 		for j := range r.w.Nodes {
 			if j != ni && st.Via&(1<<uint(j)) != 0 {
@@ -324,7 +326,7 @@ func (r *chainRun) doStep(st *CStep) *Violation {
 		mb := r.registerBlock(blk)
 		v.noteStored(r.cm, mb.ID)
 		r.noteApplied(n, v)
-		r.logf("mined %s h=%d txs=%d", hx(blk.Blockid), mb.Height, len(blk.Transactions))
+		r.logf("mined %s h=%d txs=%s", hx(blk.Blockid), mb.Height, descTxids(blk.Transactions))
 		r.rc.St.Probes["blocks-mined"]++
 		if len(blk.Transactions) > 1 {
 			r.rc.St.Probes["blocks-with-txs"]++
@@ -759,18 +761,28 @@ func (r *chainRun) checkFreshReplay(n *Node) *Violation {
 	}
 	defer f.Drop()
 	saveBG := r.rc.BG
-	for _, mb := range path[1:] {
-		cs := f.L.ConfirmBlock(CloneBlock(mb.Block), false)
-		if !cs.Succ {
-			return r.viol("fresh-replay-refused", "fresh node refuses block %s (h=%d) of the chain %s sits on: %v", hx(mb.ID), mb.Height, n.Name, cs.Error)
+	if vi := r.replayPath(f, n, path); vi != nil {
+		// discriminate the known root cause "block validity depends on the utxo cache capacity":
+		// the same replay with a large cache succeeds
+		if r.w.K.UtxoCache > 0 && r.w.K.UtxoCache < 100 {
+			big := *r.w.K
+			big.UtxoCache = 100000
+			f2, err := r.w.FreshWith("fresh-bigcache", 0, &big)
+			if err != nil {
+				panic(err)
+			}
+			defer f2.Drop()
+			if r.replayPath(f2, n, path) == nil {
+				vi.Clause = "block-unplayable-with-small-utxo-cache"
+			}
 		}
-		if err := f.S.Play(mb.ID); err != nil {
-			return r.viol("fresh-replay-refused", "fresh node cannot play block %s (h=%d) of the chain %s sits on: %v", hx(mb.ID), mb.Height, n.Name, err)
-		}
+		r.rc.BG = saveBG
+		return vi
 	}
 	pool, _ := n.S.GetUnconfirmedTx(false)
 	for _, t := range pool {
 		c := CloneTx(t)
+		c.Blockid = nil // membership in the pool is what is replayed; C05 compares the records themselves
 		if err := f.S.DoTx(c); err != nil {
 			return r.viol("pool-not-replayable", "pool transaction %s of %s cannot be admitted on a fresh node at the same block: %v", hx(t.Txid), n.Name, err)
 		}
@@ -784,6 +796,19 @@ func (r *chainRun) checkFreshReplay(n *Node) *Violation {
 		return r.viol("state-differs-from-fresh-replay", "%s at block %s (h=%d) vs fresh replay: %s", n.Name, hx(tip), len(path)-1, d)
 	}
 	r.rc.St.Probes["fresh-replay-compared"]++
+	return nil
+}
+
+func (r *chainRun) replayPath(f *Node, n *Node, path []*MBlock) *Violation {
+	for _, mb := range path[1:] {
+		cs := f.L.ConfirmBlock(CloneBlock(mb.Block), false)
+		if !cs.Succ {
+			return r.viol("fresh-replay-refused", "fresh node refuses block %s (h=%d) of the chain %s sits on: %v", hx(mb.ID), mb.Height, n.Name, cs.Error)
+		}
+		if err := f.S.Play(mb.ID); err != nil {
+			return r.viol("fresh-replay-refused", "fresh node cannot play block %s (h=%d) of the chain %s sits on: %v", hx(mb.ID), mb.Height, n.Name, err)
+		}
+	}
 	return nil
 }
 
@@ -1250,4 +1275,32 @@ func (r *chainRun) modelPath(a, b string) (undo, todo [][]byte) {
 		todo = append(todo, pb[j].ID)
 	}
 	return
+}
+
+func descTx(t *lpb.Transaction) string {
+	s := hx(t.Txid) + " v" + fmt.Sprint(t.Version) + " in["
+	for _, i := range t.TxInputs {
+		s += fmt.Sprintf("%s_%s_%d=%s ", i.FromAddr[:4], hx(i.RefTxid), i.RefOffset, new(big.Int).SetBytes(i.Amount))
+	}
+	s += "] out["
+	for _, o := range t.TxOutputs {
+		s += fmt.Sprintf("%s=%s/f%d ", o.ToAddr[:min(4, len(o.ToAddr))], new(big.Int).SetBytes(o.Amount), o.FrozenHeight)
+	}
+	s += "] r["
+	for _, i := range t.TxInputsExt {
+		s += fmt.Sprintf("%s/%s@%s_%d ", i.Bucket, i.Key, hx(i.RefTxid), i.RefOffset)
+	}
+	s += "] w["
+	for _, o := range t.TxOutputsExt {
+		s += fmt.Sprintf("%s/%s=%q ", o.Bucket, o.Key, o.Value)
+	}
+	return s + "]"
+}
+
+func descTxids(ts []*lpb.Transaction) string {
+	s := ""
+	for _, t := range ts {
+		s += hx(t.Txid) + ","
+	}
+	return s
 }
